@@ -868,7 +868,8 @@ class Translator:
     # class lookup across the modules we know
     CLASS_HOME = {"BaseSamples": "samples", "Samples": "samples", "SMCSamples": "samples",
                   "BaseTransform": "transforms", "Sampler": "samplers.base", "MCMCSampler": "samplers.mcmc",
-                  "SMCSampler": "samplers.smc.base", "NumpySMCSampler": "samplers.smc.base"}
+                  "SMCSampler": "samplers.smc.base", "NumpySMCSampler": "samplers.smc.base",
+                  "ImportanceSampler": "samplers.importance", "MiniPCN": "samplers.mcmc", "Emcee": "samplers.mcmc"}
 
     def class_node(self, module, cls):
         c = self.classes(module).get(cls)
